@@ -188,6 +188,7 @@ __CPROVER_requires(START_REQ(self) && OPX.duration_ > -TIME_MAX && OPX.duration_
 __CPROVER_assigns(START_ASSIGNS)
 __CPROVER_ensures(G.enq_calls == 1 && G.cb_state == CB_REGISTERED && G.completed == 0) /* queued exactly once, whether or not the stop callback ran during its registration; nothing is completed by start() */
 __CPROVER_ensures(T.dueTime_ <= G.now + OPX.duration_)
+__CPROVER_ensures(G.cb_inline_runs > 0 ==> T.dueTime_ <= G.now) /* C07: stop already requested when start() registers the callback: the operation is queued as due at once, it does not wait out its delay */
 /*@BODY after_start*/
 
 void at_start(struct top* self)
@@ -195,6 +196,7 @@ __CPROVER_requires(START_REQ(self))
 __CPROVER_assigns(START_ASSIGNS)
 __CPROVER_ensures(G.enq_calls == 1 && G.cb_state == CB_REGISTERED && G.completed == 0)
 __CPROVER_ensures(T.dueTime_ <= __CPROVER_old(T.dueTime_))
+__CPROVER_ensures(G.cb_inline_runs > 0 ==> T.dueTime_ <= G.now) /* C07: same for schedule_at */
 /*@BODY at_start*/
 
 #define EXEC_REQ (G.completed == 0 && G.value == 0 && G.done == 0 && G.polls == 0 && !G.stop_seen && G.cb_state == CB_REGISTERED)
